@@ -16,6 +16,8 @@
 
 extern "C" int igc_vsprintf(char *s, const char *format, va_list ap);
 extern "C" int igc_vfdprintf(int fd, const char *format, va_list ap);
+extern "C" int igc_sprintf(char *s, const char *format, ...);
+extern "C" int igc_fdprintf(int fd, const char *format, ...);
 
 // compat fdprintf.c writes through fdputc(); captured here
 static std::string g_fd_bytes;
@@ -386,6 +388,11 @@ static void note_features(const std::vector<Item> &items)
             g_feat[FT_CONV + (int)(strchr(CONVS, d.conv) - CONVS)]++;
             if (d.conv == '%')
                 continue;
+            {
+                // parsed-directive state coverage: (conversion, flag set, width form, precision form, length, value class)
+                std::string sg = signature(d, true, true);
+                vf::state(vf::hash_bytes(sg.data(), sg.size()));
+            }
             g_feat[FT_LEN + d.len]++;
             for (int i = 0; i < 5; i++)
                 if (d.flags & (1u << i))
@@ -504,8 +511,16 @@ static Verdict evaluate(const std::vector<Item> &items, bool mirror, bool also_w
         {
             vf::Exact dst(nullptr, ig.bytes.size() + 1);
             vf::cls(("vsprintf:" + cls).c_str());
-            int r = pf::run_any([](void *ctx, const char *f, va_list ap) { return igc_vsprintf((char *)ctx, f, ap); }, dst.p,
-                                b.fmt.c_str(), b.args.data(), (int)b.args.size());
+            int r;
+            if (b.fmt.size() & 1)
+                r = pf::run_any([](void *ctx, const char *f, va_list ap) { return igc_vsprintf((char *)ctx, f, ap); }, dst.p, b.fmt.c_str(),
+                                b.args.data(), (int)b.args.size());
+            else
+            {
+                // the variadic front end
+                auto call = [&](auto... xs) { return igc_sprintf((char *)dst.p, b.fmt.c_str(), xs...); };
+                r = pf::dispatch(call, b.args.data(), (int)b.args.size());
+            }
             if (r != ig.ret || memcmp(dst.p, ig.bytes.data(), ig.bytes.size()) != 0 || dst.p[ig.bytes.size()] != 0)
             {
                 vf::fail_nothrow("vsprintf:differs-from-callback-stream", "format=\"%s\" args=[%s] ret=%d expected=%d buffer=\"%s\"",
@@ -513,15 +528,22 @@ static Verdict evaluate(const std::vector<Item> &items, bool mirror, bool also_w
                                  ig.ret, vf::esc(dst.p, ig.bytes.size() + 1).c_str());
             }
             else if (counted)
-                VF_OK("compat vsprintf == callback stream + terminator, return equal");
+                VF_OK("compat vsprintf/sprintf == callback stream + terminator, return equal");
         }
         {
             g_fd_bytes.clear();
             g_fd_seen = -1;
             vf::cls(("vfdprintf:" + cls).c_str());
             int fd = 77;
-            int r = pf::run_any([](void *ctx, const char *f, va_list ap) { return igc_vfdprintf(*(int *)ctx, f, ap); }, &fd, b.fmt.c_str(),
+            int r;
+            if (b.fmt.size() & 1)
+                r = pf::run_any([](void *ctx, const char *f, va_list ap) { return igc_vfdprintf(*(int *)ctx, f, ap); }, &fd, b.fmt.c_str(),
                                 b.args.data(), (int)b.args.size());
+            else
+            {
+                auto call = [&](auto... xs) { return igc_fdprintf(fd, b.fmt.c_str(), xs...); };
+                r = pf::dispatch(call, b.args.data(), (int)b.args.size());
+            }
             if (r != ig.ret || g_fd_bytes != ig.bytes || (!ig.bytes.empty() && g_fd_seen != fd))
             {
                 vf::fail_nothrow("vfdprintf:differs-from-callback-stream", "format=\"%s\" args=[%s] ret=%d expected=%d bytes=\"%s\"",
@@ -529,7 +551,7 @@ static Verdict evaluate(const std::vector<Item> &items, bool mirror, bool also_w
                                  ig.ret, vf::esc(g_fd_bytes.data(), g_fd_bytes.size()).c_str());
             }
             else if (counted)
-                VF_OK("compat vfdprintf == callback stream, return equal");
+                VF_OK("compat vfdprintf/fdprintf == callback stream, return equal");
         }
     }
     return v;
@@ -1168,7 +1190,7 @@ static void rand_dir(vf::Rng &r, Dir &d, int &budget, bool allow_p)
     else if (w >= 2)
     {
         d.wk = W_LIT;
-        d.width = (int)r.range(1, 40);
+        d.width = r.chance(1, 40) ? (int)r.range(41, 300) : (int)r.range(1, 40);
     }
     if (d.conv != 'c' && d.conv != 'p')
     {
@@ -1182,7 +1204,7 @@ static void rand_dir(vf::Rng &r, Dir &d, int &budget, bool allow_p)
         else if (p >= 3)
         {
             d.pk = P_LIT;
-            d.prec = r.chance(1, 4) ? 0 : (int)r.range(1, 40);
+            d.prec = r.chance(1, 4) ? 0 : r.chance(1, 40) ? (int)r.range(41, 300) : (int)r.range(1, 40);
         }
         else if (p == 2)
             d.pk = P_DOT;
@@ -1280,7 +1302,7 @@ extern "C" void vf_setup()
                           "%p: 0x + hex digits parse back to the pointer, padded to the width",
                           "%s with precision read no further than precision (exact unterminated heap block)",
                           "%s read no further than its terminator (exact heap block)",
-                          "compat vsprintf == callback stream + terminator, return equal", "compat vfdprintf == callback stream, return equal",
+                          "compat vsprintf/sprintf == callback stream + terminator, return equal", "compat vfdprintf/fdprintf == callback stream, return equal",
                           "seen format with several directives", "seen %s unterminated exact block", "seen width literal", "seen width *",
                           "seen width * negative", "seen precision literal", "seen precision .*", "seen precision .* negative",
                           "seen precision lone ."})
